@@ -70,6 +70,25 @@ CLAIMED = {
         'float32 storage is avoided in the tie by using dyadic values.',
    technique='Coq refinement proof (array -> finite map) + in-Coq differential evaluation of operation sequences',
    design='5 C11'),
+ 'C12': dict(
+   text='Coq theorems over arbitrary edge lists, flags, factors and random numbers: every new infection comes from an edge of that network in a direction with '
+        'non-zero beta, with an infectious ACTIVE source, a susceptible ACTIVE target and no zero factor; at most once per step with the first source kept; '
+        'monotone in beta for a fixed set of random numbers; an edge to a non-active agent makes the outcome depend on uninitialised memory; mixing-pool cases lie '
+        'in the destination group with positive probability. Probability product / comparison / net_beta / pool probability regenerated from disease.py and networks.py. '
+        'Every Infection.infect() call of real runs is recorded (state, edges, effective betas, the random numbers actually drawn) and replayed by the model in Coq.',
+   note='Trusted: Coq kernel, translator, instance-level wrappers on Infection.infect / trans_rng.rvs / MixingPool installed by the harness. Effective per-edge betas '
+        '(incl. the acts-based sexual-network formula) are taken from the implementation in the run-level replay; float32 products are compared exactly (ambiguity ~1e-8 per edge).',
+   technique='Coq proof of the transmission kernel (admissibility, dedup, monotonicity) + in-Coq replay of recorded infect() calls',
+   design='5 C12'),
+ 'C14': dict(
+   text='Coq theorems: remove_uids removes exactly the edges touching removed agents; removing the dead from networks and then from the active list keeps all endpoints active; '
+        'end_pairs semantics and exact lifetimes of timed edges (present after j updates iff d - j*dt > 0); random-network half-edge counts for every permutation; '
+        'uid-keyed pair construction is safe while positional construction is refuted by a witness. Edge-list op sequences on a real dynamic network are compared with the '
+        'model in Coq; a probe between the network phase and transmission checks every built-in network class under births/deaths/pregnancy at every step.',
+   note='Trusted: Coq kernel, translator (end_pairs expressions + shape pins), harness (Network.append wrapper for pairing-time eligibility). Partnership eligibility / '
+        'no-concurrency of MF/MSM/Embedding are checked on the implementation (probe), not proved. Two genuine defects (ErdosRenyiNet, DiskNet positional edges) were repaired by fix: commits.',
+   technique='Coq proofs about edge-list maintenance and timed edges + in-Coq differential evaluation + per-step network probe',
+   design='5 C14'),
 }
 
 checks = []
